@@ -13,7 +13,7 @@ BOUNDARY_ERRS = ("Err(InvalidMessage)", "Err(InvalidEsc)", "Err(OutOfMemory)")
 def run(ctx):
     ctx.rule("R-C14-RESET", "post-state of reset() from every reachable state equals Default::default() field by field and the buffer is cleared; "
                             "its return value is 0 after a delivered frame and the consumed-byte counter otherwise")
-    ctx.rule("R-C14-FINALIZE", "finalize() leaves the fresh state; it returns None exactly from a fresh or Done decoder")
+    ctx.rule("R-C14-FINALIZE", "finalize() leaves the fresh state and an empty buffer from every state (what it reports is R-C17-FINAL)")
     ctx.rule("R-C14-BOUNDARY", "every push_byte outcome that reports InvalidMessage / InvalidEsc / OutOfMemory leaves the fresh state with a "
                                "cleared buffer; Ok(true) leaves Done; from Done the byte is processed by a decoder that was reset first")
     ctx.rule("R-C14-CRC-DEAD", "the one field reset() does not touch (the CRC digest) is dead in the idle state: every use in push_byte from "
@@ -100,19 +100,15 @@ def run(ctx):
         fresh = is_fresh(c["st"], c["obj"], dst, dobj, an, why) and c["st"].ghost.get("c14-cleared") is True
         for s2, var, pay in split_enum(ip, c["st"], c["ret"], "finalize result"):
             ctx.count("R-C14-FINALIZE")
-            idle = c["key"] == an.v_done
-            if c["key"] == an.v_look:
-                o = c["obj0"].elems[an.i_state].pay[an.v_look]
-                z = all(s2.const_of(x.lin) == 0 for x in o)
-                nz = any((s2.interval(x.lin)[0] or 0) > 0 for x in o)
-                idle = True if z else (False if nz else None)
-            ok = fresh and ((var == 0 and idle is True) or (var == 1 and idle is False))
+            # (what finalize reports - None exactly when nothing is pending - is decided by R-C17-FINAL / R-C10-FINAL through the
+            #  reset() observer; the boundary property only needs the state it leaves behind)
+            ok = fresh
             ctx.oblig(ok)
             if not ok:
                 ctx.violation("R-C14-FINALIZE", "partition=%s|ret=%s" % (c["key"], "None" if var == 0 else "Some"), where(an.finalize),
                               "finalize() from state #%s returns %s %s" % (c["key"], "None" if var == 0 else "Some(..)",
                                                                            "and does not leave the fresh state: " + "; ".join(why) if not fresh else
-                                                                           "which does not match 'None iff fresh or Done'"))
+                                                                           ""))
     # ---- push_byte
     n_bound = 0
     seen_labels = set()
